@@ -234,6 +234,21 @@ CHECKS = {
                 "blade-wise claims extend to all multivectors of the covered dimensions.",
         "technique": SOLVER_TECH + "; numpy object arrays of proxies inside the real Space/MultiVector",
     },
+    "C19": {
+        "level": "model_checking",
+        "text": "Bounded symbolic model checking of the exact-arithmetic helpers: integer_power on an unbounded symbolic integer base "
+                "and on 2x2 symbolic matrices with the exponent a solver-enumerated small-domain integer (coverage-checked, "
+                "negative exponents refused); extended_euclidean / gcd / lcm on a symbolic pair in a box with divisors realised "
+                "(Bezout identity, divisibility, greatest among all common divisors in the box, lcm*g = |q*r|); fft, ifft(fft) "
+                "and sym_fft on vectors of symbolic complex numbers (pairs of reals in numpy object arrays) for every length "
+                "1..12 (thorough 1..32): z3 (LRA) proves each output within n*1e-9 of the DFT definition with independently "
+                "computed twiddles for every input in the unit box; Polynomial + - * ** divmod with symbolic integer "
+                "coefficients at a symbolic point against the same operation on values; quotient nodes.",
+        "design_ref": "DESIGN.md §4 C19",
+        "note": "Trusted: schoolbook definitions in the harness, proxies, z3. Reals stand in for floats in the FFT. For powers "
+                "and products of a polynomial with itself the coefficients are concrete (the zero-tests are nonlinear).",
+        "technique": SOLVER_TECH + "; LRA tolerance queries for the FFT",
+    },
 }
 
 _PENDING = "check not built yet in this session (the design in DESIGN.md applies; will be claimed once its harness exists)"
